@@ -860,6 +860,49 @@ func ctxLayers(tier string) []Layer {
 				}
 			},
 		})
+		// A2c: integers next to perfect squares around the binary boundaries (2^52..2^64): a shortcut through
+		// float64 / uint64 arithmetic in a Context wrapper takes k²±1 for k², or 2^53+1 for 2^53
+		nearK := binaryBoundaryRoots
+		layers = append(layers, Layer{
+			Name:   "A2c-near-squares-and-binary-boundary-integers",
+			Units:  len(nearK),
+			Bounds: fmt.Sprintf("x = (k² + d)·10^e for k in %v, d in {−1, 0, +1, +k}, e in {0, −2, 3, −7}; Context.Sqrt(x), Mul(x, 3), Add(x, 3), Quo(x, 4), Set(x) at context precision {8, 16, 17, 20, 34} × 6 modes, receiver previously inexact", nearK),
+			Run: func(c *Ctx, u int) {
+				k := big.NewInt(nearK[u])
+				three := mkInt64(3, 0, 5, 0)
+				four := mkInt64(4, 0, 5, 0)
+				for _, d := range []int64{-1, 0, 1, nearK[u]} {
+					cf := new(big.Int).Mul(k, k)
+					cf.Add(cf, big.NewInt(d))
+					for _, e := range []int64{0, -2, 3, -7} {
+						xo := mkCoef(false, cf, e, 0, 0)
+						for _, cp := range []uint{8, 16, 17, 20, 34} {
+							for _, m := range M6 {
+								if c.Skip() {
+									continue
+								}
+								c.NonTrivial()
+								cx := dctx.New(cp, decimal.RoundingMode(m))
+								key := fmt.Sprintf("Context(prec %d, %s) x=%s", cp, modeName(m), xo)
+								try := func(name string, exp RRes, wantAcc bool, run func(z *Dec)) {
+									z := buildPre(preInexact, 3, ToZero)
+									pv, _ := protect(func() { run(z) })
+									if msg := judgeFull(Observe(z), pv, false, exp, wantAcc); msg != "" {
+										c.Fail(key+" "+name, msg)
+									}
+								}
+								x := xo.Build()
+								try("Sqrt(x)", ModelSqrt(xo.V, uint32(cp), m), false, func(z *Dec) { cx.Sqrt(z, x) })
+								try("Mul(x,3)", ModelMul(xo.V, three.V, uint32(cp), m), true, func(z *Dec) { cx.Mul(z, x, three.Build()) })
+								try("Add(x,3)", ModelAdd(xo.V, three.V, uint32(cp), m), true, func(z *Dec) { cx.Add(z, x, three.Build()) })
+								try("Quo(x,4)", ModelQuo(xo.V, four.V, uint32(cp), m), true, func(z *Dec) { cx.Quo(z, x, four.Build()) })
+								try("Set(x)", RoundVal(xo.V, uint32(cp), m), true, func(z *Dec) { cx.Set(z, x) })
+							}
+						}
+					}
+				}
+			},
+		})
 		precs := []uint{40, 600, 1300, 2500, 4800, 8000}
 		layers = append(layers, Layer{
 			Name:   "A2-long-operands",
